@@ -1093,14 +1093,13 @@ class EProxy(EObject):
         return self._wrapped
 
     def delete(self, recursive=True):
-        if recursive and self.resolved:
-            [obj.delete() for obj in self.eAllContents()]
-            # for obj in self.eAllContents():
-            #     obj.delete()
+        if self.resolved:
+            # a resolved proxy stands for its target: other holders may reach
+            # the same target directly or through other proxies
+            self._wrapped.delete(recursive=recursive)
+            return
 
         seek = set(self._inverse_rels)
-        if self.resolved:
-            seek.update((self, ref) for ref in self.eClass.eAllReferences())
         for owner, feature in seek:
             fvalue = owner.eGet(feature)
             if feature.many:
